@@ -48,6 +48,18 @@ def run_demo(d, tree, work):
                 worst = rc
         return worst, outs[-900:]
     if os.path.exists(shd):
+        txt = open(shd).read()
+        if "TAPKEE" in txt:
+            # the demonstration drives the CLI: build it for this tree and hand it over
+            os.makedirs(os.path.join(tree, "bin"), exist_ok=True)
+            exe = os.path.join(tree, "bin", "tapkee")
+            if not os.path.exists(exe):
+                r = sh(CXX + ["-I" + os.path.join(tree, "include"), "-I" + os.path.join(tree, "src"),
+                              os.path.join(tree, "src", "cli", "main.cpp"), "-o", exe])
+                if r.returncode:
+                    return None, "CLI compile failed: " + r.stdout[-600:]
+            env["TAPKEE"] = exe
+            env["TAPKEE_BIN"] = exe
         try:
             r = sh(["bash", shd, tree], env=env, cwd=work, timeout=1800)
         except subprocess.TimeoutExpired:
